@@ -1,13 +1,13 @@
 // C09 — serialization round trip: -DC09_S=1: var_opt_sketch, var_opt_union, ebpps_sketch (int64 / std::string / custom
 // serde items); -DC09_S=2: tdigest float/double (image with and without the unmerged buffer) and density_sketch.
 #ifndef C09_S
-#error "compile with -DC09_S=1 (VarOpt, VarOpt union, EBPPS) or -DC09_S=2 (t-digest, density)"
+#error "compile with -DC09_S=1 (VarOpt), 3 (VarOpt union), 4 (EBPPS) or 2 (t-digest, density)"
 #endif
 #include "vf/core.hpp"
 #include "vf/gen.hpp"
 #include "vf/c09_rt.hpp"
 #include "vf/c09_rec.hpp"
-#if C09_S == 1
+#if C09_S != 2
 #include <var_opt_sketch.hpp>
 #include <var_opt_union.hpp>
 #include <ebpps_sketch.hpp>
@@ -22,10 +22,10 @@ using namespace c09;
 
 const char* property_id() { return "C09"; }
 unsigned case_timeout_s() { return 120; }
-uint64_t num_cases(bool thorough) { return thorough ? 50000 : 2500; }
+uint64_t num_cases(bool thorough) { return C09_S == 2 ? (thorough ? 50000 : 2500) : (thorough ? 20000 : 1000); }
 void final_report() {}
 
-#if C09_S == 1
+#if C09_S != 2
 // ------------------------------------------------------------------ item types
 template<typename T> struct SItem;
 template<> struct SItem<int64_t> { typedef serde<int64_t> SerDe; static const char* name() { return "int64"; } static int64_t gen(Rng& r) { return r.range(-1000, 1000); } };
@@ -71,6 +71,7 @@ static void vo_fill(var_opt_sketch<T>& s, uint64_t n, Rng& r, int heavy_mode) {
   }
 }
 
+#if C09_S == 1
 template<typename T>
 static void case_varopt(Rng& r) {
   typedef var_opt_sketch<T> S;
@@ -108,6 +109,8 @@ static void case_varopt(Rng& r) {
   roundtrip(o, *sk, r, G().cur_desc);
 }
 
+#endif
+#if C09_S == 3
 // ------------------------------------------------------------------ VarOpt union
 template<typename T>
 static std::string observe_vou(const var_opt_union<T>& u) {
@@ -154,6 +157,8 @@ static void case_varopt_union(Rng& r) {
   roundtrip(o, *sk, r, G().cur_desc);
 }
 
+#endif
+#if C09_S == 4
 // ------------------------------------------------------------------ EBPPS
 template<typename T>
 static std::string observe_ebpps(const ebpps_sketch<T>& s) {
@@ -221,17 +226,23 @@ static void case_ebpps(Rng& r) {
   roundtrip(o, *sk, r, G().cur_desc);
 }
 
+#endif
+
 void run_case(uint64_t idx, Rng& r) {
-  switch ((idx / 16 + idx) % 9) {
+  switch ((idx / 16 + idx) % 3) {
+#if C09_S == 1
     case 0: case_varopt<int64_t>(r); break;
     case 1: case_varopt<std::string>(r); break;
-    case 2: case_varopt<Rec>(r); break;
-    case 3: case_varopt_union<int64_t>(r); break;
-    case 4: case_varopt_union<std::string>(r); break;
-    case 5: case_varopt_union<Rec>(r); break;
-    case 6: case_ebpps<int64_t>(r); break;
-    case 7: case_ebpps<std::string>(r); break;
+    default: case_varopt<Rec>(r); break;
+#elif C09_S == 3
+    case 0: case_varopt_union<int64_t>(r); break;
+    case 1: case_varopt_union<std::string>(r); break;
+    default: case_varopt_union<Rec>(r); break;
+#else
+    case 0: case_ebpps<int64_t>(r); break;
+    case 1: case_ebpps<std::string>(r); break;
     default: case_ebpps<Rec>(r); break;
+#endif
   }
 }
 
